@@ -29,7 +29,7 @@ RULE = ("case = generated template set (import library cached per environment, w
         "data-dependent / nested / around caller()) and imported probe macros whose output depends "
         "on the eval context they are handed (join / replace / xmlattr / urlize over text + Markup, a "
         "sibling macro call, a pass_eval_context harness function), drawn like any fragment and "
-        "forced into every 4th case as task 0 = block macro, task 1 = probe) x 2-3 tasks (same or different "
+        "forced into every second such case as task 0 = block macro, task 1 = probe) x 2-3 tasks (same or different "
         "main template, different data) x gate positions (a start gate + <=4 of the task's g() "
         "calls) x release order.  distinct = (template-set+task hash, release order) actually "
         "executed with >= 2 task switches; 'interleavings' = number of distinct orders executed. "
@@ -81,21 +81,21 @@ ASSUMPTIONS = [
 NSHARDS = {"quick": 16, "thorough": 16}
 BUDGET_S = {"quick": 12, "thorough": 420}
 FLOORS = {
-    "quick": {"evaluations": 15000, "distinct": 13000,
-              "counters": {"schedules": 9000, "task_outputs_compared": 35000, "cases": 30,
-                           "gates_released": 100000, "schedules_fresh_env": 600,
-                           "cases_with_argless_namespace": 10,
-                           "cases_with_namespace_from_data_mapping": 4,
-                           "cases_with_imported_macro_awaiting_inside_autoescape_block": 25,
-                           "cases_with_imported_autoescape_macro_and_evalctx_probe": 20,
-                           "schedules_with_task_suspended_inside_imported_autoescape_block": 5000,
-                           "schedules_probing_eval_context_during_such_suspension": 3000,
-                           "evalctx_probe_evaluations": 50000,
-                           "modrace_schedules_with_task_suspended_inside_imported_autoescape_block": 2800,
-                           "modrace_schedules_probing_eval_context_during_such_suspension": 1200,
-                           "modrace_cases": 30, "modrace_schedules": 6000,
-                           "modrace_import_while_body_suspended": 4000,
-                           "modrace_cases_all_orders_enumerated": 10}},
+    "quick": {"evaluations": 3000, "distinct": 2500,
+              "counters": {"schedules": 2000, "task_outputs_compared": 6000, "cases": 8,
+                           "gates_released": 12000, "schedules_fresh_env": 150,
+                           "cases_with_argless_namespace": 2,
+                           "cases_with_namespace_from_data_mapping": 1,
+                           "cases_with_imported_macro_awaiting_inside_autoescape_block": 7,
+                           "cases_with_imported_autoescape_macro_and_evalctx_probe": 6,
+                           "schedules_with_task_suspended_inside_imported_autoescape_block": 1500,
+                           "schedules_probing_eval_context_during_such_suspension": 1000,
+                           "evalctx_probe_evaluations": 15000,
+                           "modrace_schedules_with_task_suspended_inside_imported_autoescape_block": 800,
+                           "modrace_schedules_probing_eval_context_during_such_suspension": 400,
+                           "modrace_cases": 6, "modrace_schedules": 800,
+                           "modrace_import_while_body_suspended": 500,
+                           "modrace_cases_all_orders_enumerated": 3}},
     "thorough": {"evaluations": 120000, "distinct": 120000,
                  "counters": {"schedules": 120000, "task_outputs_compared": 300000, "cases": 70,
                               "gates_released": 1500000, "schedules_fresh_env": 6000,
